@@ -738,6 +738,13 @@ def gen_cases(ctx):
         slow = rng.sample(range(k), rng.randint(0, k))
         cases.append(mk_case(k, n, 'rss', slow=slow, seed=seed))
         cases.append(mk_case(k, n, 'rss', slow=rng.sample(range(k), rng.randint(0, k)), seed=seed))
+    # deterministic boundary seeds (0 is falsy, 1, 2**32-1 is the largest seed numpy accepts), every worker count
+    for seed in (0, 1, 2 ** 32 - 1):
+        for k in (1, 2, 3, 5):
+            cases.append(mk_case(k, 6, 'rss-boundary-seed', seed=seed))
+            cases.append(mk_case(k, 6, 'rss-boundary-seed', seed=seed, slow=[k - 1]))
+        cases.append(mk_case(2, 4, 'do_trials', seed=seed, trials=True))
+        cases.append(mk_case(2, 4, 'do_trials', seed=seed, trials=True, slow=[1]))
     # F. Analysis.do_trials (result array keeps the order of the list), through the real method
     for _ in range(ctx.budget(6, 40)):
         k = rng.randint(1, 5)
@@ -798,6 +805,8 @@ def gen_sequences(ctx):
     seqs.append({'name': 'bulk-then-free', 'seq': [C(2, 2, bulk=[1], late=[1]), C(2, 2), C(2, 3, func='b')]})
     seqs.append({'name': 'interactive-then-batch', 'seq': [C(3, 7, interactive=True, slow=[1]), C(3, 7), C(3, 7, interactive=True, func='b'),
                                                            C(1, 5, interactive=True), C(2, 5)]})
+    seqs.append({'name': 'rss-seed-zero', 'seq': [C(3, 6, 'rss', seed=0), C(3, 6, 'rss', seed=0, reuse_args=True), C(1, 6, 'rss', seed=0),
+                                                  C(3, 6, 'rss', seed=1), C(3, 6, 'rss', seed=0)]})
     for _ in range(ctx.budget(2, 10)):
         k, n = rng.randint(1, 4), rng.randint(2, 9)
         s1, s2 = rng.randrange(2 ** 31), rng.randrange(2 ** 31)
